@@ -54,6 +54,18 @@ class Text:
     __repr__ = key
 
 
+class Field:
+    """the text of the numeric atom `atom` right-justified in a fixed-width column (PDB style)"""
+
+    def __init__(self, atom, width):
+        self.atom, self.width = atom, width
+
+    def key(self):
+        return "field(%s,%d)" % (self.atom, self.width)
+
+    __repr__ = key
+
+
 class SStr:
     def __init__(self, parts):
         out = []
@@ -74,6 +86,82 @@ class SStr:
         return "s(" + "+".join(repr(p) if isinstance(p, str) else p.key() for p in self.parts) + ")"
 
     __repr__ = key
+
+    @staticmethod
+    def part_len(p):
+        if isinstance(p, str):
+            return Rat.const(len(p))
+        if isinstance(p, Field):
+            return Rat.const(p.width)
+        a_ = "len(%s)" % p.key()
+        POSITIVE.add(a_)
+        return Rat.atom(a_)
+
+    def find(self, needle):
+        """offset of the first occurrence of a literal in the literal pieces (symbolic pieces are numbers / words that do not
+        contain it), -1 if absent"""
+        off = Rat.const(0)
+        for p in self.parts:
+            if isinstance(p, str):
+                i = p.find(needle)
+                if i >= 0:
+                    return off + i
+            off = off + SStr.part_len(p)
+        return Rat.const(-1)
+
+    def cut(self, bound):
+        """-> (index of the part, offset inside it) at which the position `bound` (a normal form) falls, or None"""
+        off = Rat.const(0)
+        for k, p in enumerate(self.parts):
+            d = bound - off
+            if d.is_const():
+                c = d.const_value()
+                ln = SStr.part_len(p)
+                if c == 0:
+                    return (k, 0)
+                if c > 0 and ln.is_const() and c < ln.const_value():
+                    if isinstance(p, str) and c.denominator == 1:
+                        return (k, int(c))
+                    return ("inside", k)
+            off = off + SStr.part_len(p)
+        d = bound - off
+        if d.is_const() and d.const_value() >= 0:
+            return (len(self.parts), 0)
+        return None
+
+    def slice(self, lo, hi):
+        """self[lo:hi] for bounds that fall on piece boundaries or inside literal pieces; a cut through a symbolic piece gives a
+        distinct 'partial' word"""
+        total = Rat.const(0)
+        for p in self.parts:
+            total = total + SStr.part_len(p)
+
+        def norm(b, default):
+            if b is None:
+                return default
+            if b.is_const() and b.const_value() < 0:
+                return total + b
+            return b
+        lo, hi = norm(lo, Rat.const(0)), norm(hi, total)
+        a, b = self.cut(lo), self.cut(hi)
+        if a is None or b is None:
+            return None
+        if a[0] == "inside" or b[0] == "inside":
+            k = a[1] if a[0] == "inside" else b[1]
+            return Sym("partial(%s)" % self.parts[k].key(), "word")
+        (ka, oa), (kb, ob) = a, b
+        if (ka, oa) > (kb, ob):
+            return ""
+        out = []
+        for k in range(ka, min(kb + 1, len(self.parts))):
+            p = self.parts[k]
+            if isinstance(p, str):
+                s0 = oa if k == ka else 0
+                s1 = ob if k == kb else len(p)
+                out.append(p[s0:s1])
+            elif k < kb:
+                out.append(p)
+        return SStr(out).simplify()
 
     def simplify(self):
         if not self.parts:
@@ -228,6 +316,9 @@ class ObjEvaluator(Evaluator):
             return
         return Evaluator.exec_stmt(self, st, env)
 
+    def index_error(self, node):
+        raise PyRaise("IndexError", node, "index out of range")
+
     def handler_matches(self, h, name, env):
         if h.type is None:
             return True
@@ -359,10 +450,24 @@ class ObjEvaluator(Evaluator):
             hi = const_int(self.eval(node.slice.upper, env)) if node.slice.upper is not None else None
             stp = const_int(self.eval(node.slice.step, env)) if node.slice.step is not None else None
             return base[slice(lo, hi, stp)]
-        if isinstance(base, str) and isinstance(node.slice, ast.Slice):
-            lo = const_int(self.eval(node.slice.lower, env)) if node.slice.lower is not None else None
-            hi = const_int(self.eval(node.slice.upper, env)) if node.slice.upper is not None else None
-            return base[slice(lo, hi)]
+        if isinstance(base, (str, SStr, Sym)) and isinstance(node.slice, ast.Slice) and node.slice.step is None:
+            lo = self.eval(node.slice.lower, env) if node.slice.lower is not None else None
+            hi = self.eval(node.slice.upper, env) if node.slice.upper is not None else None
+            if isinstance(base, str) and (lo is None or const_int(lo) is not None) and (hi is None or const_int(hi) is not None):
+                return base[slice(const_int(lo) if lo is not None else None, const_int(hi) if hi is not None else None)]
+            s_ = base if isinstance(base, SStr) else SStr([base])
+            from .symeval import scalar as _scalar
+            r = s_.slice(_scalar(lo) if lo is not None else None, _scalar(hi) if hi is not None else None)
+            if r is None:
+                raise AnalysisError("E7: slice of symbolic text at a position that is not a piece boundary (line %d)" % node.lineno)
+            return r
+        if isinstance(base, SStr) and not isinstance(node.slice, (ast.Slice, ast.Tuple)):
+            i = const_int(self.eval(node.slice, env))
+            if i is not None:
+                r = base.slice(Rat.const(i), Rat.const(i + 1) if i != -1 else None)
+                if r is None:
+                    raise AnalysisError("E7: character %d of symbolic text (line %d)" % (i, node.lineno))
+                return r
         return Evaluator.e_Subscript(self, node, env)
 
     def e_Call(self, node, env):
@@ -633,11 +738,17 @@ class ObjEvaluator(Evaluator):
             except (ValueError, OverflowError):
                 raise PyRaise("ValueError", node, "%s(%r)" % (which, v))
         if isinstance(v, Sym):
+            if v.name.startswith("partial("):
+                return Rat.atom(v.name)          # a number cut out of the wrong columns: some other number
             if v.kind == "word":
                 raise PyRaise("ValueError", node, "%s of a word" % which)
             raise PyRaise("TypeError", node, "%s of an object" % which)
         if isinstance(v, SStr):
             core_parts = [p for p in v.parts if not (isinstance(p, str) and not p.strip())]
+            if len(core_parts) == 1 and isinstance(core_parts[0], Field):
+                core_parts = [Text(core_parts[0].atom)]
+            if len(core_parts) == 1 and isinstance(core_parts[0], Sym) and core_parts[0].name.startswith("partial("):
+                return Rat.atom(core_parts[0].name)
             if len(core_parts) == 1 and isinstance(core_parts[0], Text):
                 a = core_parts[0].atom
                 if which == "float":
@@ -829,6 +940,17 @@ class ObjEvaluator(Evaluator):
                     return getattr(base, attr)(args[0])
                 raise AnalysisError("E7: %s on symbolic text (line %d)" % (attr, node.lineno))
             if attr in ("lower", "upper") and isinstance(base, str):
+                return getattr(base, attr)()
+            if attr in ("lower", "upper") and isinstance(base, Sym) and base.kind == "word":
+                return Sym("%s(%s)" % (attr, base.name), "word")
+            if attr in ("find", "index") and len(args) == 1 and isinstance(args[0], str):
+                r = s.find(args[0])
+                if attr == "index" and r.is_const() and r.const_value() < 0:
+                    raise PyRaise("ValueError", node, "substring not found")
+                return r
+            if attr == "count" and len(args) == 1 and isinstance(args[0], str):
+                return Rat.const(sum(p.count(args[0]) for p in s.parts if isinstance(p, str)))
+            if attr in ("isdigit", "isalpha", "isspace") and isinstance(base, str):
                 return getattr(base, attr)()
             if attr == "join" and isinstance(base, str) and len(args) == 1 and isinstance(args[0], (list, tuple)):
                 out = []
